@@ -485,6 +485,7 @@ pub fn run(cfg: &SimConfig) -> anyhow::Result<(Vec<Value>, Value)> {
                             let first = window * 4;
                             let mut par_x = best_parent.clone();
                             let mut par_y = best_parent.clone();
+                            let split: u32 = rng.random();
                             let mut shredder = alpenglow::shredder::RegularShredder::default();
                             use alpenglow::shredder::Shredder;
                             for s in first..first + 4 {
@@ -545,7 +546,8 @@ pub fn run(cfg: &SimConfig) -> anyhow::Result<(Vec<Value>, Value)> {
                                            "x": hash_name(&names3, &hx), "y": hash_name(&names3, &hy)}).to_string(),
                                 ));
                                 for (j, a) in &shred_addrs {
-                                    let set = if j % 2 == 0 { &sx } else { &sy };
+                                    // a seeded split of the receivers, fixed for the whole window
+                                    let set = if (split >> (j % 32)) & 1 == 0 { &sx } else { &sy };
                                     for sh in set.iter() {
                                         let _ = snet.send(sh.as_shred(), *a).await;
                                     }
